@@ -31,6 +31,7 @@ func runC17(c *Ctx) {
 	c17Taint(c)
 	c17Unquote(c)
 	c17QuotedVerbatim(c)
+	c17TokenizerVerbatim(c)
 }
 
 // c17Unquote implements C17.unquote-multibyte and C17.unquote-errors.
@@ -692,4 +693,43 @@ func c17QuotedVerbatim(c *Ctx) {
 		}
 	}
 	c.Floor(rule, 2)
+}
+
+// c17TokenizerVerbatim implements C17.tokenizer-verbatim: "placed in a data-file field and read back unchanged" — the
+// line tokenizer hands out the bytes between separators as they are. Bquote leaves spaces unescaped, so a value may
+// legitimately end (or begin) with one: trimming, case folding or any other rewriting of the line before or after
+// the split (seed c17g: TrimRight(" ") "like tinydns-data") changes the last field of a line.
+func c17TokenizerVerbatim(c *Ctx) {
+	rule := "C17.tokenizer-verbatim"
+	c.Rule(rule, "A8 in dnsdata.fields and detectSep: no call of a bytes/strings function that returns a rewritten copy or sub-slice chosen by content (Trim*, TrimSpace, ToLower, ToUpper, Replace*, Map, Fields*, Title) takes (a slice of) the line as its argument")
+	n := 0
+	for _, name := range []string{"fields", "detectSep"} {
+		fn := c.Func("dnsdata", name)
+		c.Examined(fn)
+		n++
+		var bad []string
+		for _, ci := range callInstrs(fn) {
+			f := calleeOf(ci.Common())
+			if f == nil || f.Pkg() == nil || (f.Pkg().Path() != "bytes" && f.Pkg().Path() != "strings") {
+				continue
+			}
+			nm := f.Name()
+			rewriting := strings.HasPrefix(nm, "Trim") || strings.HasPrefix(nm, "To") || strings.HasPrefix(nm, "Replace") || nm == "Map" || strings.HasPrefix(nm, "Fields") || nm == "Title" || nm == "Clone" && false
+			if !rewriting {
+				continue
+			}
+			fromLine := false
+			for _, a := range ci.Common().Args {
+				for v := range backSlice(a, nil) {
+					if p, ok := v.(*ssa.Parameter); ok && p.Parent() == fn {
+						fromLine = true
+					}
+				}
+			}
+			if fromLine {
+				bad = append(bad, fmt.Sprintf("%s.%s at %s", f.Pkg().Path(), nm, c.relPos(ci.Pos())))
+			}
+		}
+		c.Check(rule, fnName(fn)+"|line-bytes-untouched", len(bad) == 0, fn.Pos(), fmt.Sprintf("rewriting calls on the line: %v", bad))
+	}
 }
